@@ -1415,10 +1415,15 @@ func vxC13Judge(c *vxC13Case, o *vxC13Obs) error {
 		if src.ReplyEv == 0 || src.ReplyEv > o.returnEv {
 			return fmt.Errorf("the caller got %s before it was sent: %s", o.res, desc())
 		}
-		// success always completes an execution: a request that was only sent afterwards cannot win against it
-		if firstOK != nil && firstOK.ReplyEv < src.ArrEv {
-			return fmt.Errorf("the caller got %s although success had been answered (to h%d#%d) before that request was even sent - not the first result to complete: %s",
-				o.res, firstOK.Host, firstOK.K, desc())
+		// success always completes an execution: a request that was only sent afterwards cannot win against it.
+		// The node sees when it READ a request, not when the driver wrote it: requests of executions that start
+		// together are pipelined on one connection and read one after the other, so "read after the success was
+		// answered" says nothing by itself (a first version of this rule said it did - a false alarm, met in a
+		// thorough run once speculative delays of zero were generated). 20 ms between the answer and the read is
+		// two orders of magnitude above the in-memory delivery latency; the case is re-run before it counts.
+		if firstOK != nil && firstOK.ReplyEv < src.ArrEv && src.ArrAt.Sub(firstOK.ReplyAt) >= 20*time.Millisecond {
+			return fmt.Errorf("the caller got %s although success had been answered (to h%d#%d) %v before that request was even read by its node - not the first result to complete: %s",
+				o.res, firstOK.Host, firstOK.K, src.ArrAt.Sub(firstOK.ReplyAt).Round(time.Millisecond), desc())
 		}
 		// nor can an answer that was sent much later (>= 20 ms, two orders of magnitude above the in-memory
 		// delivery latency; confirmed by re-running the case) than an answer that completes its execution:
